@@ -65,6 +65,9 @@ namespace hv
     using VQ    = TSB<"VQ", Field<"b", TS<Int>>, Field<"a", TS<Int>>>;
     using S_BB  = TSB<"BB", Field<"q", VQ>, Field<"l", TS<Int>>>;
     using S_BL  = TSB<"BL", Field<"g", TSL<TS<Int>, 2>>, Field<"l", TS<Int>>>;
+    // a fixed composite two levels deep (rows of a 2x2 grid)
+    using S_PAIR = TSL<TS<Int>, 2>;
+    using S_QQ   = TSL<TSL<TS<Int>, 2>, 2>;
     // keys narrower than a pointer (the slot store keeps liveness in bitmaps for these)
     using I32     = std::int32_t;
     using S_TSS32 = TSS<I32>;
@@ -441,6 +444,38 @@ namespace hv
                 pos.set(Int{(long long)p});
                 if (p < sc.size()) sched.schedule(tabs(cs_time(sc[p])));
             }
+        }
+    };
+
+    // combiner over DICTIONARY-valued elements: key-wise sum of two dictionaries (keys of either side; stale keys are erased)
+    struct VMergeDD
+    {
+        static constexpr auto name = "v_mergedd";
+        static void eval(In<"a", TSD<Int, TS<Int>>, InputValidity::Unchecked> a, In<"b", TSD<Int, TS<Int>>, InputValidity::Unchecked> b,
+                         Out<TSD<Int, TS<Int>>> out)
+        {
+            std::map<Int, Int> sum;
+            auto add_side = [&](const TSInputView &side) {
+                if (!side.valid()) return;
+                auto d = side.as_dict();
+                for (auto [k, child] : d.items())
+                {
+                    if (!child.valid()) continue;
+                    const Int key = std::atoll(k.to_string().c_str());
+                    sum[key] = wrap(sum[key] + std::atoll(child.value().to_string().c_str()));
+                }
+            };
+            add_side(a.base());
+            add_side(b.base());
+            std::vector<Int> stale;
+            for (auto [k, child] : out.items())
+            {
+                (void)child;
+                const Int key = std::atoll(k.to_string().c_str());
+                if (!sum.count(key)) stale.push_back(key);
+            }
+            for (const Int k : stale) (void)out.erase(k);
+            for (const auto &[k, v] : sum) out.set(k, v);
         }
     };
 
